@@ -234,7 +234,34 @@ def materialise(st, final_dir, root, out_dir):
 def workload(task):
     rng = rng_for(task['seed'], 'C10', task['idx'])
     params = {'mode': rng.choice(['strict', 'strict', {'alo': 2}]), 'sched': 'sync', 'backend': rng.choice(['fd', 'mmap']), 'via': 'builder', 'key': 'k'}
-    prog = gen_program(rng, PROFILE, params)
+    family = 'rollover' if task['idx'] % 4 == 1 else 'generated'
+    if family == 'rollover':
+        # fill the first 1 GiB segment's 100 blocks with one small append per topic, so that the next allocations open a NEW segment file
+        # inside the recorded window (first entries of a new file, file creation, directory sync)
+        params['backend'] = 'mmap' if task['idx'] % 8 == 1 else rng.choice(['fd', 'mmap'])
+        ops = [['open', {'h': 1}]]
+        tag = 0
+        ntop = rng.randint(100, 104)
+        for i in range(ntop):
+            tag += 1
+            ops.append(['append', {'t': 't%03d' % i, 'tag': tag, 'len': rng.choice([16, 100, 300, 5000])}])
+        # an existing topic outgrows its block now: the writer has to move to a block of a NEW segment file
+        big = 't%03d' % rng.randrange(0, ntop)
+        for ln in ([6_000_000, 5_000_000] if rng.random() < 0.6 else [10_400_000]):
+            tag += 1
+            ops.append(['append', {'t': big, 'tag': tag, 'len': ln}])
+        for _ in range(rng.randint(1, 4)):
+            tag += 1
+            t = rng.choice([big, 't%03d' % rng.randrange(max(ntop - 6, 0), ntop)])
+            if rng.random() < 0.3:
+                ops.append(['batch', {'t': t, 'entries': [[tag, 200], [tag + 1, 64]]}]); tag += 1
+            elif rng.random() < 0.3:
+                ops.append(['rn', {'t': t, 'cp': True}])
+            else:
+                ops.append(['append', {'t': t, 'tag': tag, 'len': rng.choice([100, 6_000_000])}])
+        prog = {'instances': {1: dict(params)}, 'ops': ops, 'features': ['file-rollover']}
+    else:
+        prog = gen_program(rng, PROFILE, params)
     rec_dir = fresh_dir('c10rec')
     out = {'findings': [], 'stats': {}, 'params': params, 'inconclusive': None, 'sample': None}
     def stat(k, n=1):
@@ -249,6 +276,7 @@ def workload(task):
         snaps = sr.snapshots
         n_events = len(trace)
         stat('trace_events', n_events)
+        stat('workloads:' + family)
         for k in set(e['kind'] for e in trace):
             stat('trace:' + k, sum(1 for e in trace if e['kind'] == k))
         # overlapping WAL writes would make "bytes from the final file" unsound
@@ -258,7 +286,14 @@ def workload(task):
                 stat('overlapping_writes')
         prefixes = list(range(1, n_events + 1))
         if len(prefixes) > task['max_prefixes']:
-            prefixes = sorted(rng.sample(prefixes, task['max_prefixes']))
+            # aimed sampling: the prefixes right after a file creation (first entries of a new segment) are always included
+            creates = [i for i, e in enumerate(trace) if e['kind'] == 'create' and i > 10]
+            aimed = sorted({p for c in creates for p in range(c + 1, min(c + 26, n_events + 1))})
+            if len(aimed) > task['max_prefixes'] // 2:
+                aimed = sorted(rng.sample(aimed, task['max_prefixes'] // 2))
+            rest = [p for p in prefixes if p not in set(aimed)]
+            prefixes = sorted(set(aimed) | set(rng.sample(rest, max(task['max_prefixes'] - len(aimed), 1))))
+            stat('prefixes_aimed_after_file_creation', len(aimed))
         topics = sorted(sr.inst[1].topics)
         out['sample'] = {'params': params, 'ops': len(prog['ops']), 'trace_events': n_events, 'first_events': [(e['class'], e['kind'], os.path.basename(e['path']), e['off'], e['len']) for e in trace[:14]]}
         for t in prefixes:
@@ -327,7 +362,7 @@ def run(tier, seed, budget):
     q = tier == 'quick'
     rep = Report('C10', tier, seed, 'fault_enumeration')
     rep.rule = RULE
-    rep.required = {'workloads': 6, 'states': 150, 'prefixes': 80, 'trace:flush': 10, 'trace:rename': 10, 'trace:fsync_dir': 10, 'recovered_entries_compared': 2000}
+    rep.required = {'workloads': 6, 'states': 150, 'prefixes': 80, 'trace:flush': 10, 'trace:rename': 10, 'trace:fsync_dir': 10, 'recovered_entries_compared': 2000, 'workloads:rollover': 1, 'prefixes_aimed_after_file_creation': 5}
     rep.assumptions = ['power-loss model at write granularity: an un-synced positional write / memcpy is kept entirely or not at all; completed O_SYNC writes and everything '
                        'covered by a completed fsync/msync are durable; directory entries need a directory fsync', 'bytes of WAL writes are taken from the final file '
                        '(the checker counts overlapping writes; rolled-back headers are zeros either way)', 'io_uring batch writes go through O_SYNC handles under SyncEach']
